@@ -45,7 +45,7 @@ static uint32_t apply_kind(int kind, uint32_t a, uint32_t b) {
 }
 
 static const int MAX_EMU = 96, MAX_RULE = 192;
-struct EmuInfo { int kind, size; };
+struct EmuInfo { int kind, size; int form; };   // form 0: two temporaries; 1: reads two arrays itself (LOAD); 2: four sources
 static EmuInfo g_emu[MAX_EMU];
 static unsigned g_emu_hits[MAX_EMU];
 struct RuleInfo { int kind, size; char target; };  // target: 's' sse, 'a' avx, 'm' mmx
@@ -53,21 +53,30 @@ static RuleInfo g_rule[MAX_RULE];
 static unsigned g_rule_hits[MAX_RULE];
 static unsigned g_rule_user_mismatch = 0;
 
-static void emu_generic(int id, OrcOpcodeExecutor *ex, int n) {
+static void emu_generic(int id, OrcOpcodeExecutor *ex, int offset, int n) {
   g_emu_hits[id]++;
   const EmuInfo &e = g_emu[id];
   uint8_t *d = (uint8_t *)ex->dest_ptrs[0];
+  // an opcode that loads by itself gets the arrays' row pointers and the position within the row
+  size_t base = e.form == 1 ? (size_t)offset : 0;
   const uint8_t *a = (const uint8_t *)ex->src_ptrs[0];
   const uint8_t *b = (const uint8_t *)ex->src_ptrs[1];
   for (int i = 0; i < n; i++) {
     uint32_t va = 0, vb = 0;
-    memcpy(&va, a + (size_t)i * e.size, e.size);
-    if (e.kind != K_COPY) memcpy(&vb, b + (size_t)i * e.size, e.size);
+    memcpy(&va, a + (base + i) * e.size, e.size);
+    if (e.kind != K_COPY) memcpy(&vb, b + (base + i) * e.size, e.size);
     uint32_t r = apply_kind(e.kind, va, vb);
+    if (e.form == 2) {
+      for (int k = 2; k < 4; k++) {
+        uint32_t vk = 0;
+        memcpy(&vk, (const uint8_t *)ex->src_ptrs[k] + (size_t)i * e.size, e.size);
+        r = apply_kind(e.kind, r, vk);
+      }
+    }
     memcpy(d + (size_t)i * e.size, &r, e.size);
   }
 }
-template <int ID> static void emu_fn(OrcOpcodeExecutor *ex, int offset, int n) { (void)offset; emu_generic(ID, ex, n); }
+template <int ID> static void emu_fn(OrcOpcodeExecutor *ex, int offset, int n) { emu_generic(ID, ex, offset, n); }
 
 static int x86_op(int kind, int size) {
   switch (kind) {
@@ -151,6 +160,7 @@ static std::vector<std::string> reg_gen(const GenArgs &ga) {
   size_t name_cursor = 0;
   int rulesets_total = 0;
   std::map<std::pair<int, int>, std::vector<std::string>> ruled;  // (set, opcode) -> targets that have a rule for it
+  std::set<std::pair<int, int>> unruled;   // opcodes that never get a rule (forms L and Q)
   for (int i = 0; i < nops; i++) {
     int c = (int)r.below(100);
     if ((i == 0 || c < 14) && nsets < 4) {
@@ -172,8 +182,12 @@ static std::vector<std::string> reg_gen(const GenArgs &ga) {
         }
         if (name_cursor >= name_order.size()) break;
         const char *nm = kExtNames[name_order[name_cursor++]];
-        l += strf("%s%s:%s:%d", ops.empty() ? "" : ",", nm, kKindName[kind], size);
+        // some opcodes load from two arrays themselves (L), some take four sources (Q): neither has a code
+        // generator here, so programs using them are emulated with the application's function
+        const char *form = (kind != K_COPY && r.chance(1, 7)) ? (r.chance(1, 2) ? ":L" : ":Q") : "";
+        l += strf("%s%s:%s:%d%s", ops.empty() ? "" : ",", nm, kKindName[kind], size, form);
         ops.push_back({kind, size});
+        if (*form) unruled.insert({nsets, (int)ops.size() - 1});
       }
       if (ops.empty()) continue;
       sets.push_back(ops);
@@ -196,7 +210,7 @@ static std::vector<std::string> reg_gen(const GenArgs &ga) {
         std::set<int> chosen;
         for (int k = 0; k < n; k++) chosen.insert((int)r.below(sets[si].size()));
         bool first = true;
-        for (int k : chosen) { l += strf("%s%d", first ? "" : ",", k); first = false; if (sets[si][k].second) ruled[{si, k}].push_back(t); }
+        for (int k : chosen) { l += strf("%s%d", first ? "" : ",", k); first = false; if (sets[si][k].second && !unruled.count({si, k})) ruled[{si, k}].push_back(t); }
       }
       if (r.chance(1, 10)) l += ",nosuchopcodename";   // registering a rule for a name the set does not have is refused, not fatal
       rulesets_total++;
@@ -217,8 +231,8 @@ static std::vector<std::string> reg_gen(const GenArgs &ga) {
         t = it->second[r.below(it->second.size())];
         size = sets[it->first.first][it->first.second].second;
       }
-      std::string l = strf("op prog target=%s drop=%d hi=%d size=%d insns=", t.c_str(), r.chance(1, 2) ? 0 : (int)r.below(4),
-                           r.chance(1, 2) ? 0 : (int)r.below(8), size);
+      std::string l = strf("op prog target=%s drop=%d hi=%d size=%d rows=%d insns=", t.c_str(), r.chance(1, 2) ? 0 : (int)r.below(4),
+                           r.chance(1, 2) ? 0 : (int)r.below(8), size, r.chance(1, 4) ? 1 : 0);
       for (int k = 0; k < len; k++) {
         bool ext = nsets > 0 && r.chance(3, 5);
         if (ext) {
@@ -244,7 +258,7 @@ static std::vector<std::string> reg_gen(const GenArgs &ga) {
 // ---------------------------------------------------------------------------
 // registry model + interpreter
 // ---------------------------------------------------------------------------
-struct ExtOp { std::string name; int kind, size, emu_id; bool shadow = false; };
+struct ExtOp { std::string name; int kind, size, emu_id; bool shadow = false; int form = 0; };
 struct ExtSet { std::string prefix; std::vector<ExtOp> ops; OrcStaticOpcode *arr; int major; };
 struct MRule { int id; };
 struct MRuleSet {
@@ -377,12 +391,13 @@ static void reg_run(const std::vector<std::string> &plan, Child &c) {
       s.prefix = kv(w, "prefix", "x");
       for (auto &item : split(kv(w, "ops"), ',')) {
         auto f = split(item, ':');
-        if (f.size() != 3 || next_emu >= MAX_EMU) continue;
+        if ((f.size() != 3 && f.size() != 4) || next_emu >= MAX_EMU) continue;
         ExtOp o{f[0], kind_from(f[1]), atoi(f[2].c_str()), next_emu++};
+        if (f.size() == 4 && o.kind != K_COPY) o.form = f[3] == "L" ? 1 : f[3] == "Q" ? 2 : 0;
         // a name that is already taken (by a built-in opcode, or by an earlier set) stays with its first owner:
         // this opcode is registered all the same, and can never be reached by name
         if (orc_opcode_find_by_name(f[0].c_str())) { o.shadow = true; c.count("probe.extension_opcode_with_a_taken_name"); }
-        g_emu[o.emu_id] = EmuInfo{o.kind, o.size};
+        g_emu[o.emu_id] = EmuInfo{o.kind, o.size, o.form};
         s.ops.push_back(o);
       }
       if (s.ops.empty()) continue;
@@ -398,10 +413,11 @@ static void reg_run(const std::vector<std::string> &plan, Child &c) {
         memset(so.dest_size, 0, sizeof so.dest_size);
         memset(so.src_size, 0, sizeof so.src_size);
         snprintf(so.name, sizeof so.name, "%s", s.ops[k].name.c_str());
-        so.flags = 0;
+        so.flags = s.ops[k].form == 1 ? ORC_STATIC_OPCODE_LOAD : 0;
         so.dest_size[0] = s.ops[k].size;
         so.src_size[0] = s.ops[k].size;
         if (s.ops[k].kind != K_COPY) so.src_size[1] = s.ops[k].size;
+        if (s.ops[k].form == 2) so.src_size[2] = so.src_size[3] = s.ops[k].size;
         so.emulateN = kEmu[s.ops[k].emu_id];
       }
       s.major = orc_opcode_register_static(s.arr, (char *)s.prefix.c_str());
@@ -444,6 +460,7 @@ static void reg_run(const std::vector<std::string> &plan, Child &c) {
         } else {
           int k = atoi(item.c_str());
           if (k >= (int)sets[m.set].ops.size()) continue;
+          if (sets[m.set].ops[k].form != 0) continue;   // (the harness has no code generator for these: emulated only)
           oname = sets[m.set].ops[k].name; kind = sets[m.set].ops[k].kind; size = sets[m.set].ops[k].size;
         }
         if (tname == "mmx" && size > 4) continue;
@@ -483,14 +500,15 @@ static void reg_run(const std::vector<std::string> &plan, Child &c) {
     } else if (op == "prog") {
       std::string tname = kv(w, "target", "sse");
       int size = (int)kvi(w, "size", 2);
-      struct Insn { bool ext; int set, idx, kind; std::string name; };
+      struct Insn { bool ext; int set, idx, kind; std::string name; int form = 0; };
       std::vector<Insn> insns;
       for (auto &item : split(kv(w, "insns"), ',')) {
         if (starts(item, "e:")) {
           int s = 0, o = 0;
           if (sscanf(item.c_str() + 2, "%d.%d", &s, &o) != 2 || s >= (int)sets.size() || o >= (int)sets[s].ops.size()) continue;
           if (sets[s].ops[o].size != size || sets[s].ops[o].shadow) continue;
-          insns.push_back({true, s, o, sets[s].ops[o].kind, sets[s].ops[o].name});
+          if (sets[s].ops[o].form == 1 && !insns.empty()) continue;   // an opcode that loads by itself reads arrays: first instruction only
+          insns.push_back({true, s, o, sets[s].ops[o].kind, sets[s].ops[o].name, sets[s].ops[o].form});
         } else if (starts(item, "b:")) {
           int kind = kind_from(item.substr(2));
           insns.push_back({false, -1, -1, kind, builtin_name(kind, size)});
@@ -505,17 +523,47 @@ static void reg_run(const std::vector<std::string> &plan, Child &c) {
       int s1 = orc_program_add_source(p, size, "s1");
       int t1 = orc_program_add_temporary(p, size, "t1");
       int t2 = orc_program_add_temporary(p, size, "t2");
+      if (kvi(w, "rows", 0) > 0) orc_program_set_2d(p);
       int cur = s1, nsrc = 1;
       std::vector<int> srcvars = {s1};
+      std::map<int, std::string> vname = {{d1, "d1"}, {s1, "s1"}, {t1, "t1"}, {t2, "t2"}};
+      // four-source opcodes need three more arrays each: drop the ones that do not fit the eight source slots
+      {
+        int need = 1;
+        std::vector<Insn> kept;
+        for (auto &in : insns) {
+          int more = in.form == 2 ? 3 : in.kind != K_COPY ? 1 : 0;
+          if (need + more > 8) continue;
+          need += more;
+          kept.push_back(in);
+        }
+        insns = kept;
+      }
+      if (insns.empty()) { orc_program_free(p); continue; }
       for (size_t k = 0; k < insns.size(); k++) {
         bool last = k + 1 == insns.size();
         int dst = last ? d1 : (k % 2 ? t2 : t1);
         int b = 0;
         if (insns[k].kind != K_COPY) {
           b = orc_program_add_source(p, size, strf("s%d", ++nsrc).c_str());
+          vname[b] = strf("s%d", nsrc);
           srcvars.push_back(b);
         }
-        orc_program_append_2(p, insns[k].name.c_str(), 0, dst, cur, b, 0);
+        if (insns[k].form == 2) {
+          // five operands: only the by-name entry point can express them
+          int c2 = orc_program_add_source(p, size, strf("s%d", nsrc + 1).c_str());
+          int e2 = orc_program_add_source(p, size, strf("s%d", nsrc + 2).c_str());
+          vname[c2] = strf("s%d", nsrc + 1); vname[e2] = strf("s%d", nsrc + 2);
+          nsrc += 2;
+          srcvars.push_back(c2); srcvars.push_back(e2);
+          std::string n0 = vname[dst], n1 = vname[cur], n2 = vname[b], n3 = vname[c2], n4 = vname[e2];
+          const char *args[5] = {n0.c_str(), n1.c_str(), n2.c_str(), n3.c_str(), n4.c_str()};
+          orc_program_append_str_n(p, insns[k].name.c_str(), 0, 5, args);
+          c.count("probe.five_operand_extension_instruction");
+        } else {
+          orc_program_append_2(p, insns[k].name.c_str(), 0, dst, cur, b, 0);
+        }
+        if (insns[k].form == 1) c.count("probe.self_loading_extension_instruction");
         cur = dst;
       }
       if (strcmp(orc_program_get_error(p), "")) {
@@ -587,26 +635,35 @@ static void reg_run(const std::vector<std::string> &plan, Child &c) {
       uint64_t ds = kvu(w, "ds", 1);
       make_inputs(meta, ds, n, act);
       make_inputs(meta, ds, n, emu);
-      std::vector<uint8_t> ref((size_t)act.n * size);
+      std::vector<uint8_t> ref((size_t)act.n * size * act.m);
+      for (int row = 0; row < act.m; row++)
       for (int i = 0; i < act.n; i++) {
         uint32_t v = 0;
-        memcpy(&v, act.ptr(s1) + (size_t)i * size, size);
+        memcpy(&v, act.ptr(s1) + (size_t)row * act.stride[s1] + (size_t)i * size, size);
         size_t si = 1;
         for (auto &in : insns) {
-          uint32_t b = 0;
-          if (in.kind != K_COPY) { memcpy(&b, act.ptr(srcvars[si]) + (size_t)i * size, size); si++; }
-          v = apply_kind(in.kind, v, b);
-          if (size < 4) v &= (1u << (8 * size)) - 1;
+          int nb = in.form == 2 ? 3 : in.kind != K_COPY ? 1 : 0;
+          for (int q = 0; q < (nb ? nb : 1); q++) {
+            uint32_t b = 0;
+            if (nb) { memcpy(&b, act.ptr(srcvars[si]) + (size_t)row * act.stride[srcvars[si]] + (size_t)i * size, size); si++; }
+            v = apply_kind(in.kind, v, b);
+            if (size < 4) v &= (1u << (8 * size)) - 1;
+          }
         }
-        memcpy(ref.data() + (size_t)i * size, &v, size);
+        memcpy(ref.data() + ((size_t)row * act.n + i) * size, &v, size);
       }
+      auto rows_equal = [&](const RunData &rd) {
+        for (int row = 0; row < rd.m; row++)
+          if (memcmp(rd.ptr(d1) + (size_t)row * rd.stride[d1], ref.data() + (size_t)row * rd.n * size, (size_t)rd.n * size)) return false;
+        return true;
+      };
       memset(g_emu_hits, 0, sizeof g_emu_hits);
       bool can_call = !(ok && t && !t->executable);   // code for a backend that cannot run here is never called
       run_with(p, nullptr, meta, can_call ? RUN_EXEC : RUN_EMULATE, act);
       if (!can_call) { memset(g_emu_hits, 0, sizeof g_emu_hits); c.count("compile.foreign_target_ok"); }
       std::set<int> emu_during_run;
       for (int i = 0; i < next_emu; i++) if (g_emu_hits[i]) emu_during_run.insert(i);
-      if (memcmp(act.ptr(d1), ref.data(), ref.size()))
+      if (!rows_equal(act))
         c.violation("result", ok ? "native-result-wrong" : "fallback-result-wrong", strf("program [%s] on %s (%s) computes results different from the extension's own reference", meta.opnames.c_str(), tname.c_str(), ok ? "native" : "fallback"));
       if (ok && !emu_during_run.empty())
         c.violation("result", "emulation-used-despite-native", "a natively compiled program called emulation functions");
@@ -616,7 +673,7 @@ static void reg_run(const std::vector<std::string> &plan, Child &c) {
       for (int i = 0; i < next_emu; i++) if (g_emu_hits[i]) got_emu.insert(i);
       for (auto &in : insns) if (in.ext) expect_emu.insert(sets[in.set].ops[in.idx].emu_id);
       c.event("  ran out=%016llx emulate ids=%s", (unsigned long long)hash_outputs(meta, act), set_str(got_emu).c_str());
-      if (memcmp(emu.ptr(d1), ref.data(), ref.size()))
+      if (!rows_equal(emu))
         c.violation("result", "emulation-result-wrong", strf("emulation of [%s] differs from the extension's own reference", meta.opnames.c_str()));
       if (got_emu != expect_emu)
         c.violation("emulate", "wrong-emulate-function", strf("emulation invoked the application's functions {%s}, expected {%s}", set_str(got_emu).c_str(), set_str(expect_emu).c_str()));
